@@ -137,7 +137,7 @@ static int gen_table_verifier(fb_output_t *out, fb_compound_type_t *ct)
                     fprintf(out->fp,
                         "flatcc_verify_struct_as_nested_root(td, %"PRIu64", "
                         "%u, 0, %"PRIu64",  %"PRIu16")",
-                        member->id, required, member->size, member->align);
+                        member->id, required, member->nest->size, member->nest->align);
                 }
             } else {
                 fprintf(out->fp,
